@@ -227,7 +227,8 @@ impl Interval {
                     end: Bitvector::unsigned_max_value(self.end.width())
                         .into_zero_extend(width)
                         .unwrap(),
-                    stride: stride as u64,
+                    // `adjust_to_stride_and_remainder` sets the stride, but only for widths up to 8 bytes
+                    stride: 1,
                 }
                 .adjust_to_stride_and_remainder(stride as u64, remainder as u64)
                 .unwrap()
